@@ -50,7 +50,11 @@ def run(cmd, cwd=None, timeout=None, input_bytes=None):
 SOFT_TIE = []
 
 
-def build_impl(lichess=False):
+TRANSLATOR = os.path.join(VERIF, 'translator')
+RS2LEAN = os.path.join(TRANSLATOR, 'target', 'debug', 'rs2lean')
+
+
+def build_impl(lichess=False, translated=False):
     """cargo build of the harness against /repo's current working tree with --cfg inkayaku_verif; regenerates Gen"""
     with Lock('build'):
         t = time.time()
@@ -74,6 +78,16 @@ def build_impl(lichess=False):
         rc, out = run([sys.executable, os.path.join(VERIF, 'tools', 'gen_c04.py'), LEAN], timeout=120)
         if rc != 0:
             raise Broken('gen_c04', out[-4000:])
+        # rs2lean: selected Rust functions are translated to Lean on every run (Gen/Rs/*.lean); the equivalence theorems
+        # Props/Translated/* tie them to the hand-written model.  A source outside the translator's subset is a broken tie for the
+        # properties that use those theorems (soft: the differential run still takes place); other properties are not affected.
+        if not lichess:
+            del SOFT_TIE[:]
+        rc, out = run(['cargo', 'build', '--offline'], cwd=TRANSLATOR, timeout=1800)
+        if rc == 0:
+            rc, out = run([RS2LEAN, REPO, os.path.join(LEAN, 'Inkayaku', 'Gen', 'Rs')], timeout=300)
+        if rc != 0 and translated:
+            SOFT_TIE.append(('rs2lean', 'the Rust-to-Lean translator does not understand the current source (the generated definitions are those of the last translated source):\n' + out[-3000:]))
         return time.time() - t
 
 
